@@ -24,6 +24,7 @@ def main (args : List String) : IO UInt32 := do
       match t with
       | [] => pure ()
       | "off" :: r => cur := { cur with off := Driver.floats r }
+      | "off0" :: _ => pure ()      -- displacement field of the map's PAST: the result must not depend on it
       | "data" :: r => cur := { cur with data := Driver.floats r }
       | "extra" :: r => cur := { cur with extra := Driver.floats r }
       | "parts" :: r => cur := { cur with parts := Driver.floats r }
